@@ -159,7 +159,7 @@ func (a *An) pairLayouts(rule string) {
 	// data message: the rest of the layout
 	if f := a.MustFn("(*dataMsg).deserializeUnsigned"); f != nil {
 		for _, st := range a.DirectStoresTo(a.MustField("dataMsg", "flag")) {
-			if st.Parent() == f {
+			if a.C.within(st, f) {
 				a.TermIs(rule, "dataMsg|flag-read", "flag is the first byte", st, st.Val, "$msg[0]")
 			}
 		}
@@ -195,7 +195,7 @@ func (a *An) pairLayouts(rule string) {
 	}
 	if f := a.MustFn("(*dataMsg).deserialize"); f != nil {
 		for _, st := range a.DirectStoresTo(a.MustField("dataMsg", "authenticator")) {
-			if st.Parent() == f {
+			if a.C.within(st, f) {
 				a.TermIs(rule, "dataMsg|mac-read", "MAC = hashLength bytes right after the unsigned part", st, st.Val, "$msg[len(dataMsg.serializeUnsignedCache):][0:otrVersion.hashLength($v)]")
 			}
 		}
@@ -400,12 +400,12 @@ func (a *An) smpOrder(rule string) {
 	if f := a.MustFn("(smp1Message).tlv"); f != nil {
 		q := a.MustConst("tlvTypeSMP1WithQuestion")
 		for _, st := range a.DirectStoresTo(a.MustField("tlv", "tlvType")) {
-			if st.Parent() == f && a.C.Term(st.Val) == q {
+			if a.C.within(st, f) && a.C.Term(st.Val) == q {
 				a.GateLocal(rule, "smp1|question-flag", st, "choosing the with-question TLV type", "passed:smp1Message.hasQuestion")
 			}
 		}
 		for _, st := range a.DirectStoresTo(a.MustField("tlv", "tlvValue")) {
-			if st.Parent() == f {
+			if a.C.within(st, f) {
 				t := a.C.Term(st.Val)
 				R.Check(strings.HasPrefix(t, "append(append(smp1Message.question, new([1]byte)[:]), ") && strings.HasSuffix(t, ".tlvValue)"), rule, "smp1|question-layout", "question ‖ NUL ‖ SMP1 payload", a.C.InstrPos(st), t)
 			}
